@@ -18,6 +18,7 @@ INIT = (0, 1, 2)
 DISP = [(False, True), (True, True), (False, False), (True, False)]  # dispatcher value v = 1 + index
 NVAL = {0: 5, 1: 3, 2: 4}
 N_EXC = 7
+N_OPS = 8
 
 
 class _MyBase(BaseException):
@@ -32,8 +33,12 @@ def gen_prog(rng, depth, budget):
     if depth > 0 and r < 0.45:
         k = rng.randrange(3)
         v = rng.randrange(1 if k == 0 else 0, NVAL[k])
-        form = rng.choice(["with", "with", "deco", "predeco", "premgr"])
-        return ["Block", k, v, gen_list(rng, depth - 1, budget), form]
+        form = rng.choice(["with", "with", "deco", "predeco", "premgr", "shareddeco"])
+        body = gen_list(rng, depth - 1, budget)
+        if form == "shareddeco" and rng.random() < 0.6:
+            # ONE decorator object, re-entered while it is active (a decorated function that calls a function decorated by the same object)
+            body = [["Obs"], ["Block", k, v, body, "shareddeco"], ["Obs"]]
+        return ["Block", k, v, body, form]
     if depth > 0 and r < 0.60:
         return ["Try", gen_list(rng, depth - 1, budget)]
     if r < 0.75:
@@ -41,6 +46,8 @@ def gen_prog(rng, depth, budget):
     if r < 0.80:
         k = rng.choice([1, 2])
         return ["SetG", k, rng.randrange(NVAL[k])]
+    if r < 0.86:
+        return ["Op", rng.randrange(N_OPS)]
     if r < 0.97:
         return ["Obs"]
     return ["Nop"]
@@ -61,6 +68,8 @@ def to_coq(p):
         return f"Raise {p[1]}"
     if t == "SetG":
         return f"SetG {p[1]} {p[2]}"
+    if t == "Op":
+        return "Nop"      # using an overloaded operator (successfully or not) is not a settings action
     return t
 
 
@@ -144,6 +153,12 @@ class Impl:
             raise StopIteration("s")
         raise _MyBase()
 
+    def do_op(self, j):
+        """An overloaded-operator expression; under some settings it is a TypeError raised from inside the dispatcher."""
+        x, y, i = self.x, self.y, self.i
+        return [lambda: i + 2.5, lambda: x + 2.0, lambda: x + i, lambda: x * y, lambda: -x, lambda: i // 2, lambda: 2.5 - i,
+                lambda: 3 * x][j]()
+
     def classify(self, exc):
         from spox._exceptions import InferenceError
 
@@ -190,7 +205,7 @@ class Impl:
         self.reset()
         log, viol, bviol = [], [], []
         # managers / decorators created up front (at the initial settings) and entered later, possibly inside other blocks
-        pre = {}
+        pre, shared = {}, {}
 
         def prepare(l):
             for p in l:
@@ -216,6 +231,15 @@ class Impl:
                     if form == "with":
                         with self.cm(k, v):
                             ex_list(body)
+                    elif form == "shareddeco":
+                        if (k, v) not in shared:
+                            shared[(k, v)] = self.cm(k, v)
+
+                        @shared[(k, v)]
+                        def h():
+                            ex_list(body)
+
+                        h()
                     elif form == "premgr":
                         with pre[id(p)]:
                             ex_list(body)
@@ -243,6 +267,14 @@ class Impl:
             elif t == "Raise":
                 self.do_raise(p[1])
                 raise AssertionError("do_raise did not raise")
+            elif t == "Op":
+                before = self.state()
+                try:
+                    self.do_op(p[1])
+                except TypeError:
+                    pass
+                if self.state() != before:
+                    viol.append({"operator_expression": p[1], "before": before, "after": self.state()})
             elif t == "SetG":
                 if p[1] == 1:
                     self.F.set_value_prop_backend(self.F.ValuePropBackend(p[2]))
@@ -332,10 +364,19 @@ def run(run: Run) -> int:
         hist["forms"]["with"] += key.count("'with'")
         hist["forms"]["deco"] += key.count("'deco'")
         hist["forms"]["pre-created"] = hist["forms"].get("pre-created", 0) + key.count("'predeco'") + key.count("'premgr'")
+        hist["forms"]["shared decorator object"] = hist["forms"].get("shared decorator object", 0) + key.count("'shareddeco'")
+        hist["forms"]["operator expressions"] = hist["forms"].get("operator expressions", 0) + key.count("'Op'")
         if viol:
             n_restore_bad += 1
             small = shrink(prog, lambda c: bool(impl.run(c)[3]))
             v = impl.run(small)[3][0]
+            if "operator_expression" in v:
+                changed = next(k for k in range(3) if v["before"][k] != v["after"][k])
+                setting = ["operator_overloading", "value_prop_backend", "type_warning_level"][changed]
+                run.fail("impl", f"C16/operator-expression-changes/{setting}",
+                         f"evaluating an overloaded operator expression (do_op {v['operator_expression']}) changed the setting {setting}: "
+                         f"{v['before']} -> {v['after']}", {"history": small, "violation": v, "original_index": idx})
+                continue
             setting = ["operator_overloading", "value_prop_backend", "type_warning_level"][v["setting"]]
             run.fail("impl", f"C16/not-restored/{setting}",
                      f"{setting} block does not restore the previous setting on exit",
